@@ -3,9 +3,9 @@ NOTES = ("Exit codes: 0 held / 1 VIOLATION / 2 UNDECIDED (lost anchor, tool erro
 
 CHECKS = {
     "C06": {
-        "text": "Proof (Verus) on the real functions of crates/common/src/lib.rs, extracted verbatim each run: Scaled::{from_integer, from_decimal_digits, new, xn_over_d, nx_plus_y, integer_part, fractional_part, abs, checked_*/wrapping_*}, the operator impls and ScaledUnit::conversion_fraction are proved equal to independent transcriptions of TeX.2021 §§100-107, 458 for all inputs, with every overflow / expect / division obligation discharged.",
+        "text": "Proof (Verus) on the real functions, extracted verbatim each run. crates/common/src/lib.rs: Scaled::{from_integer, from_decimal_digits, new, xn_over_d, nx_plus_y, integer_part, fractional_part, abs, checked_*/wrapping_*}, the operator impls, ScaledUnit::conversion_fraction and display_no_units::fmt are proved equal to independent transcriptions of TeX.2021 §§100-107, 458 and print_scaled (§103) for all inputs. crates/texlang/src/parse/integer.rs: add_lsd, parse_constant, parse_optional_signs and parse_integer == TeX §§440-446 (all three radices, saturation at 2^31-1 with exactly one error, sign parity, silent wrap of -(-2^31)). crates/texlang/src/parse/dimen.rs: scan_decimal_fraction (17 kept digits), scan_constant_dimen, scan_and_apply_units (fil/fill/filll, internal quantities, em/ex, [true] + the nine units), handle_overflow and scan_dimen == TeX §§448-458 for every token sequence, including the documented error + clamped value. crates/texlang-stdlib/src/math.rs: the \\advance/\\multiply/\\divide kernels for i32, Scaled and Glue == TeX's integer algorithms (wrap on \\advance, error + no change on overflow or division by zero).",
         "design_ref": "DESIGN.md §5 C06",
-        "note": "Assumed: Verus/Z3 + vstd; derived PartialOrd on Scaled is the order of the inner i32; callers outside the verified set (the.rs token production, parse_keyword, em/ex providers).",
+        "note": "Trusted oracles around the proved functions: parse_keyword, <ScaledUnit as Parsable>::parse, parse_internal_number, parse_character, OptionalSpace::parse, the ExpandedStream next/back/error model (macro expansion abstracted), em/ex providers; the.rs token production and the glue scanner (glue.rs) are covered by bounded drivers only. Assumed: Verus/Z3 + vstd; derived PartialOrd on Scaled is the order of the inner i32. Left open (outside TeX's constant grammar): `<digits><space><point>`.",
         "technique": "contract-based deductive verification (Verus requires/ensures/loop invariants on extracted real code)",
     },
 }
@@ -13,11 +13,11 @@ CHECKS = {
 CHECKS["C01"] = {
     "text": "Proof of the mechanism (Verus, real code extracted each run): GroupingContainer::{insert,get,begin_group,end_group} equal a stack-of-snapshots model for every history and depth (representation invariant proved preserved); update_save_stack: Local keeps the first overwritten value of the innermost level, Global purges the variable from EVERY level, other types' slots framed; command::Map opens/closes a group in BOTH its containers (control sequences and active characters) and routes inserts; prefix::Component::read_and_reset_global consumes the \\global flag exactly once and honours \\globaldefs.",
     "design_ref": "DESIGN.md §5 C01",
-    "note": "Not verified: VM::run_impl dispatch and VM::begin_group/end_group glue, the font save stack, SaveStackMap::restore, the Vec backing container, the macro-generated map_getter closures (assumed to be field lenses). Trusted: vstd HashMap model, HashMap::get_mut delegation, consuming HashMap iteration modelled as take-any-until-empty.",
+    "note": "Not verified: VM::run_impl dispatch and VM::begin_group/end_group glue, the font save stack, SaveStackMap::restore, Vec backing container insert/get_mut (get/remove are proved), the macro-generated map_getter closures (assumed to be field lenses). Trusted: vstd HashMap model, HashMap::get_mut delegation, consuming HashMap iteration modelled as take-any-until-empty. A bounded driver (real VM + stdlib vs a snapshot model over group histories) stands in for the unverified glue and is labelled bounded.",
     "technique": "contract-based deductive verification (Verus: data-structure invariant + abstract model view, loop invariants, closure lens contract)",
 }
 CHECKS["C20"] = {
-    "text": "Proof (Verus) for the scoped map only: after every local insert, global insert, begin-group and end-group the real GroupingContainer equals the stack-of-snapshots model (visible map + one snapshot per open group), with its representation invariant preserved, for all keys, values, histories and depths.",
+    "text": "Proof (Verus): after every local insert, global insert, begin-group and end-group the real GroupingContainer equals the stack-of-snapshots model (visible map + one snapshot per open group), with its representation invariant preserved, for all keys, values, histories and depths, over the BackingContainer trait contract; the HashMap and Vec<Option<V>> implementations of get/remove are proved against it. KMP: Matcher::new builds exactly the prefix function of the pattern and Search::next reports a match iff the pattern ends at the current position, for every pattern and every text.",
     "design_ref": "DESIGN.md §5 C20",
     "note": "NOT decided here: iter_all/FromIterator replay, the string interner, tag uniqueness across threads (concurrency is outside both verifiers). Trusted: vstd HashMap model; HashMap::get_mut; consuming iteration modelled as take-any-until-empty; Clone identity on keys.",
     "technique": "contract-based deductive verification (Verus, ghost view + representation invariant)",
@@ -44,9 +44,9 @@ CHECKS["C04"] = {
     "technique": "contract-based deductive verification (Verus, nonlinear arithmetic hints) of the cost kernel",
 }
 CHECKS["C17"] = {
-    "text": "Proof (Verus, real code) of FixWord::to_scaled == TeX.2021.568-572 store_scaled bit for bit, for every fix_word with |x| < 16 and every non-negative design size: the z-reduction loop (alpha in {16..256}, beta != 0), the byte-wise multiplication, the negative-word correction, and absence of overflow in every intermediate product.",
+    "text": "Proof (Verus, real code) of FixWord::to_scaled == TeX.2021.568-572 store_scaled bit for bit, for every fix_word with |x| < 16 and every non-negative design size (z-reduction loop, byte-wise multiplication, negative-word correction, no overflow in any intermediate product), and of FixWord's Display == TFtoPL.2014.40-43 print_fix (digit generation with the delta stopping rule) for every fix_word.",
     "design_ref": "DESIGN.md §5 C17",
-    "note": "NOT decided yet: fix_word print/parse round trip, compress minimal tolerance, next-larger chains. Trusted: to_be_bytes byte split; common::Scaled operator contracts are proved in unit common_scaled.",
+    "note": "Bounded only (labelled bounded): fix_word print -> parse round trip, compress minimal tolerance, next-larger chains, dimension-table limits in From<pl::File>. Trusted: to_be_bytes byte split, Formatter output model; common::Scaled operator contracts are proved in unit common_scaled.",
     "technique": "contract-based deductive verification (Verus loop invariant + recursive spec of TeX's loop)",
 }
 
@@ -71,9 +71,9 @@ CHECKS["C15"] = {
 }
 
 CHECKS["C02"] = {
-    "text": "Proof (Verus) of the outer-brace rule on the real code: Parameter::should_trim_outer_braces_if_present returns true iff the whole argument is a single group (first brace closed only by the last token) for every token list; plus a bounded stand-in (not proof): 4476 generated definitions and calls run in the real VM against an executable transcription of TeX's macro_call (shortest brace-balanced run before the delimiter at depth 0, undelimited = next token or group after spaces, #{ form, substitution order, tokens after the call untouched).",
+    "text": "Proof (Verus) on the real code of texmacro.rs and stdext's substring search: Parameter::should_trim_outer_braces_if_present returns true iff the whole argument is a single group for every token list; parse_delimited_argument consumes exactly the shortest prefix that ends with the delimiter at brace depth 0 (KMP matcher contract: reports a match iff the delimiter ends here) for every token sequence and delimiter, with the scan index arithmetic overflow-free; Matcher::new/Search::next are proved against the prefix function. Plus a bounded stand-in (not proof): 4576 generated definitions and calls run in the real VM against an executable transcription of TeX's macro_call.",
     "design_ref": "DESIGN.md §5 C02",
-    "note": "Only the trim rule is proved for all inputs. The delimited-argument scan, replacement substitution, the \\def parameter-text parser and the KMP matcher are covered by the bounded driver only (labelled bounded in evidence).",
+    "note": "Undelimited arguments, replacement substitution (perform_replacement), the \\def parameter-text parser and Macro::call's dispatch are covered by the bounded driver only (labelled bounded in evidence).",
     "technique": "contract-based deductive verification (Verus loop invariant over a brace-depth spec) + bounded contract check where the verifier does not reach",
 }
 CHECKS["C09"] = {
